@@ -359,6 +359,12 @@ impl ProtocolSet {
             .map_err(|_| SubstreamError::ConnectionClosed)
     }
 
+    /// Keep-alive setting this set resolves for a (main or fallback) name (read-only; `node` area).
+    #[cfg(litep2p_verif)]
+    pub(crate) fn verif_keep_alive(&self, protocol: &ProtocolName) -> Option<SubstreamKeepAlive> {
+        self.keep_alives.get(protocol).copied()
+    }
+
     /// Get codec used by the protocol.
     pub fn protocol_codec(&self, protocol: &ProtocolName) -> ProtocolCodec {
         // NOTE: `protocol` must exist in `self.protocol` as it was negotiated
